@@ -24,11 +24,12 @@ Definition adj (v : nat) (e : edge) : list nat :=
   if Nat.eqb (fst e) v then [snd e] else if Nat.eqb (snd e) v then [fst e] else [].
 Definition nbrs (es : list edge) (v : nat) : list nat := flat_map (adj v) es.
 
-(* closure of [seen] under adjacency, [fuel] rounds *)
+(* closure of [seen] under adjacency: at most [fuel] rounds, stops as soon as a round adds nothing *)
 Fixpoint reach (fuel : nat) (es : list edge) (seen : list nat) : list nat :=
   match fuel with
   | 0 => seen
-  | S f => reach f es (fold_left (fun acc v => unionv acc (nbrs es v)) seen seen)
+  | S f => let seen' := fold_left (fun acc v => unionv acc (nbrs es v)) seen seen in
+           if Nat.eqb (length seen') (length seen) then seen else reach f es seen'
   end.
 
 (* component of [root] in the graph (nodes, es), listed in node order *)
